@@ -54,7 +54,8 @@ class C20(Check):
                     for first_target in range(6):
                         out.append({"tree": tree, "base": base, "setting": st, "steps": k + (1 if st != "render_method" else 0), "first_target": first_target})
         for base in ("kitty", "iterm2"):
-            out.append({"tree": "chain", "base": base, "setting": "render_in_use"})
+            for ov in range(4 if base == "iterm2" else 3):  # the per-call override: each method, or none (split for parallelism)
+                out.append({"tree": "chain", "base": base, "setting": "render_in_use", "override": ov})
         return out
 
     def setup(self, shape, concrete):
@@ -71,7 +72,10 @@ class C20(Check):
     def make_tree(self, shape):
         Base = self.Base
         A = type("A", (Base,), {})
-        B = type("B", (A,), {})
+        # B (and what derives from it) is created through a metaclass derived from the style's own metaclass - what a
+        # user who adds class-level properties has to do; A keeps the plain metaclass
+        M = type("DerivedMeta", (type(Base),), {})
+        B = M("B", (A,), {})
         C = type("C", (B,) if shape["tree"] == "chain" else (A,), {})
         classes = [A, B, C]
         parents = {A: None, B: A, C: B if shape["tree"] == "chain" else A}
@@ -237,12 +241,14 @@ class C20(Check):
                 own[nd] = methods[k]
         node = 5
         img = insts[2]
-        ov = eng.choice("override", len(methods) + 1)
-        override = None if ov == len(methods) else methods[ov]
+        ov = shape["override"]
+        override = None if ov >= len(methods) else methods[ov]
         eff = override or self.effective(own, parents, classes, insts, node, self.Base._default_render_method)
         self.cls = type(img)
         self.img = img
-        rshape = {"style": shape["base"], "method": override, "r_height": 2, "cell": [1, 2], "mode": "RGB", "term": "iterm2", "chunks": 1}
+        # the per-call override is accepted in any letter case (validated case-insensitively) and reaches the renderer as written
+        spelled = override and [str.lower, str.upper, str.title][eng.choice("override_letter_case", 3)](override)
+        rshape = {"style": shape["base"], "method": spelled, "r_height": 2, "cell": [1, 2], "mode": "RGB", "term": "iterm2", "chunks": 1}
         out, rw, rh, ctx = cr.graphics_render(self, eng, rshape)
         t = Term(10**6, 10**6).feed(out).finish()
         n_cmds = len(t.transmissions)
